@@ -519,6 +519,31 @@ def decided_truth(e, state):
     cv = X.const_val(r)
     if cv is not None:
         return bool(cv)
+    s_ = X.strip(r)
+    if s_ is not None:
+        # three-valued evaluation through the logical operators (have_b = have_a && !ISNULL(self->b))
+        if s_.get("k") == "un" and s_.get("op") == "!":
+            v = decided_truth(s_["ch"][0], state)
+            return None if v is None else (not v)
+        if s_.get("k") == "bin" and s_.get("op") in ("&&", "||"):
+            a, b = decided_truth(s_["ch"][0], state), decided_truth(s_["ch"][1], state)
+            if s_["op"] == "&&":
+                if a is False or b is False:
+                    return False
+                return True if (a is True and b is True) else None
+            if a is True or b is True:
+                return True
+            return False if (a is False and b is False) else None
+        if s_.get("k") == "cond":
+            c = decided_truth(s_["ch"][0], state)
+            if c is not None:
+                return decided_truth(s_["ch"][1] if c else s_["ch"][2], state)
+            x, y = decided_truth(s_["ch"][1], state), decided_truth(s_["ch"][2], state)
+            return x if (x is not None and x == y) else None
+        if s_.get("k") == "bin" and s_.get("op") in ("!=", "==") and X.const_val(s_["ch"][1]) == 0 and not X.is_pointer(X.strip(s_["ch"][0]) or {}):
+            v = decided_truth(s_["ch"][0], state)
+            if v is not None:
+                return v if s_["op"] == "!=" else (not v)
     if _contradicts(X.implied(r, True), state) and X.implied(r, True):
         return False
     if _contradicts(X.implied(r, False), state) and X.implied(r, False):
@@ -531,6 +556,10 @@ def _contradicts(facts, state):
         if f[0] == "null" and ("nn", f[1]) in state:
             return True
         if f[0] == "nn" and ("null", f[1]) in state:
+            return True
+        if f[0] == "true" and ("false", f[1]) in state:
+            return True
+        if f[0] == "false" and ("true", f[1]) in state:
             return True
     return False
 
